@@ -14,6 +14,7 @@ structure LineResult where
   cls    : String := ""    -- input class id (matched against known_findings.json by check.py)
   tag    : String := ""    -- coverage tag (histogram key)
   trivial : Bool := false  -- special-value-only case (not counted as non-trivial coverage)
+  canonical : Bool := true -- false when the implementation's output has a bit outside the type's width (C20)
 deriving Repr
 
 /-- handler: (tokens before `=>`, without the family name) → (tokens after `=>`) → result -/
@@ -26,5 +27,17 @@ def splitLine (line : String) : Option (List String × List String) :=
   if lhs.isEmpty then none else some (lhs, rhs)
 
 def joinToks (l : List String) : String := " ".intercalate l
+
+end UVerif.Driver
+
+namespace UVerif.Driver
+
+/-- `thr <family> <nthreads> <ops> => <checksum> <flag>`: thread-determinism validation (C20). The model cannot recompute the
+    checksum (it spans several families); the spec predicate is that all threads reproduced the sequential result. -/
+def thrHandler : Handler := fun _ rhs =>
+  match rhs with
+  | [c, flag] => .ok { model := joinToks [c, flag], specOk := flag == "1",
+                       reason := "results on N threads differ from the sequential run", tag := "threads" }
+  | _ => .error "arity"
 
 end UVerif.Driver
